@@ -44,6 +44,14 @@ def reviewedWhitelist : List (NondetItem × String) := [
   (⟨"recvFieldWrite", "x/epochs/types/epoch_info.go", "(*EpochInfo).StartInitialEpoch", "ei.CurrentEpochStartTime", "f0cb6d6e42"⟩,
     "as above"),
   (⟨"recvFieldWrite", "x/epochs/types/epoch_info.go", "(*EpochInfo).StartInitialEpoch", "ei.EpochCountingStarted", "83540840f4"⟩,
+    "as above"),
+  (⟨"syncUse", "app/tps_counter.go", "(*tpsCounter).incrementFailure", "sync/atomic.AddUint64", "40d70e4d80"⟩,
+    "the transactions-per-second counter (metrics): an atomic counter that is only logged, never written to a store"),
+  (⟨"syncUse", "app/tps_counter.go", "(*tpsCounter).incrementSuccess", "sync/atomic.AddUint64", "4bf199730a"⟩,
+    "as above"),
+  (⟨"syncUse", "app/tps_counter.go", "(*tpsCounter).start", "sync/atomic.LoadUint64", "66711c5448"⟩,
+    "as above: read for the periodic log line"),
+  (⟨"syncUse", "app/tps_counter.go", "(*tpsCounter).start", "sync/atomic.LoadUint64", "b5c27b3c0b"⟩,
     "as above")
 ]
 
